@@ -172,7 +172,16 @@ class ActionDefinition:
         elif isinstance(config, dict):
             # 📝 Handle object definition: {"type": "myAction", ...}
             logger.debug("🔧 Parsing action definition from dict: %s", config)
-            self.type: str = config.get("type", "UnknownAction")
+            action_type = config.get("type", "UnknownAction")
+            # 🛡️ The type is looked up by name and tested with string methods
+            #    when the action runs; a non-string surfaced there as a raw
+            #    AttributeError, far from the config that caused it.
+            if not isinstance(action_type, str) or not action_type:
+                raise InvalidConfigError(
+                    "Action object must have a non-empty string 'type', "
+                    f"got: {action_type!r}"
+                )
+            self.type: str = action_type
             self.params: Optional[Dict[str, Any]] = config.get("params")
         else:
             # ❌ Reject invalid definitions
